@@ -82,7 +82,10 @@ pub fn j_text(v: i128, out: &mut Local) {
                 out.viol("c11.serde", format!("round-trip-wrong,{cls}"), args, format!("\"{wtext}\" -> {:?}", d.to_parts()), format!("{json:?} -> {back:?}"));
             } else if let Some(bad) = others.iter().find(|o| o.as_ref().ok() != Some(&d.to_parts())) {
                 out.viol("c11.serde", format!("other-deserializer-path-differs,{cls}"), args, format!("{:?}", d.to_parts()), format!("{bad:?}"));
-            } else if (eh.0, eh.1, eh.2, eh.3, eh.4, eh.5) != (want.2, want.3, want.4, want.5, want.6, want.7) {
+            // the statement speaks about decomposing a duration; the epoch accessors are documented as the fields of the
+            // epoch's Gregorian representation, which coincide with the decomposition of its elapsed time only from the
+            // (midnight) reference epoch onward: judged there, either reading allowed before it (round 7, change C09-r7n2)
+            } else if v >= 0 && (eh.0, eh.1, eh.2, eh.3, eh.4, eh.5) != (want.2, want.3, want.4, want.5, want.6, want.7) {
                 out.viol("c11.epoch_accessors", "differ-from-decomposition".into(), args, format!("{want:?}"), format!("{eh:?}"));
             } else {
                 let nt = near_unit(v) || v < 0;
